@@ -253,6 +253,17 @@ def counting_for(f, loop):
     return vid, rhs, c['op']
 
 
+def for_init_const(loop):
+    """constant the induction variable of `for (T i = C; ...)` starts from, else None"""
+    init = (loop.get('ch') or [None])[0]
+    if not init:
+        return None
+    v = [x for x in walk(init) if x['k'] == 'VarDecl']
+    if len(v) != 1 or not kids(v[0]):
+        return None
+    return const_of(strip_casts(kids(v[0])[0]))
+
+
 def expr_key(n):
     """structural identity of an expression (after stripping casts): same key => same syntax"""
     n = strip_casts(n)
